@@ -148,6 +148,8 @@ inductive Stmt where
   | rangePure (kx : String) (l : St → PData) (body : List Stmt) -- for _, k := range <pure list>
   | ite (c : St → Bool) (t e : List Stmt)
   | fail (c : St → Bool) (cls : String)                    -- if c { return nil, err }
+  | block (tag : String) (body : List Stmt)                -- a call of another modelled function, expanded in place
+  | opaque (tag : String)                                  -- a source statement outside the model's domain (no-op here)
 
 def applyWrite (a : Nat) (c : Cell) : List (String × GoVal) → List (String × GoVal)
   | [] => []
@@ -208,6 +210,8 @@ def execS (t : Ty) (plan : Plan) : Stmt → St → St
         ((l st).getD []) st
     | .ite c a b => if c st then execL t plan a st else execL t plan b st
     | .fail c cls => if c st then { st with err := some cls } else st
+    | .block _ body => execL t plan body st
+    | .opaque _ => st
 def execL (t : Ty) (plan : Plan) : List Stmt → St → St
   | [], st => st
   | s :: r, st => execL t plan r (execS t plan s st)
@@ -230,6 +234,8 @@ def Stmt.rf : Stmt → Bool
   | .rangePure _ _ body => rfL body
   | .ite _ a b => rfL a && rfL b
   | .fail _ _ => true
+  | .block _ body => rfL body
+  | .opaque _ => true
 def rfL : List Stmt → Bool
   | [] => true
   | s :: r => s.rf && rfL r
